@@ -16,8 +16,10 @@ import traceback
 
 VERIF = os.path.dirname(os.path.dirname(os.path.abspath(__file__)))
 REPO = os.environ.get("GECKOMC_REPO", "/repo")
-EVIDENCE_DIR = os.path.join(VERIF, "evidence")
-REPLAY_DIR = os.path.join(VERIF, "replays")
+# evidence describes /repo only: runs against scratch copies (mutants) write elsewhere
+_SCRATCH = os.path.abspath(REPO) != "/repo"
+EVIDENCE_DIR = os.path.join(VERIF, ".cache", "evidence-scratch") if _SCRATCH else os.path.join(VERIF, "evidence")
+REPLAY_DIR = os.path.join(VERIF, ".cache", "replays-scratch") if _SCRATCH else os.path.join(VERIF, "replays")
 KNOWN_FILE = os.path.join(VERIF, "known_findings.json")
 
 
